@@ -215,7 +215,9 @@ func genSched(r *simcore.RNG, victims []string) Sched {
 }
 
 func genEnv(r *simcore.RNG) Env {
-	return Env{GOMAXPROCS: pick(r, []int{1, 2, 4, 16}), CPUs: 16}
+	// CPUs = what runtime.NumCPU reports and what GOMAXPROCS is when the packages are
+	// initialised; GOMAXPROCS = what the program sets afterwards (may be above or below)
+	return Env{GOMAXPROCS: pick(r, []int{1, 2, 4, 16}), CPUs: pick(r, []int{16, 16, 16, 4, 2, 1})}
 }
 
 // ---------------------------------------------------------------------------
@@ -352,6 +354,9 @@ func planC11(tier string, root *simcore.RNG) *plan {
 			sc.ConsStallMs, sc.ConsStallEvery = 3+r.Intn(4), pick(r, []int{1, 2, 4})
 			// the producer keeps running while the consumer is slow
 			sc.Sites["prod"], sc.Sites["write"] = 64, 64
+		}
+		if r.Intn(8) == 0 {
+			sc.GCStormMs = 2 + r.Intn(8)
 		}
 		id++
 		pl.scenarios = append(pl.scenarios, sc)
